@@ -14,7 +14,7 @@ static int one_case(long N, int nwaiters, int accelerated, char * msg, size_t ms
   int pfd[2]; if (pipe(pfd)) return 2;
   pid_t pid = fork();
   if (pid == 0) {
-    close(pfd[0]); alarm(20);
+    close(pfd[0]); alarm(120);
     setenv("MYTH_NUM_WORKERS", "2", 1);
     myth_init();
     char m[300] = ""; int bad = 0;
